@@ -15,8 +15,8 @@ RULE = ("every identity of the statement x every combination of operand lengths 
         "refusal cases (different CoordinateSystem objects, non-Cartesian operands, >3 components). non-trivial = at least "
         "one operand has a component; distinct = (identity, lengths, draw).")
 ASSUMPTIONS = ["SymPy expand/Rational arithmetic", "missing components count as zero (statement)"]
-MIN_REACH = {"quick": {"identity_checked": 3000, "length_combos_2": 16, "length_combos_3": 64, "refusal_checked": 60},
-             "thorough": {"identity_checked": 30000, "length_combos_2": 16, "length_combos_3": 64, "refusal_checked": 60}}
+MIN_REACH = {"quick": {"identity_checked": 3000, "length_combos_2": 16, "length_combos_3": 64, "refusal_checked": 5000},
+             "thorough": {"identity_checked": 30000, "length_combos_2": 16, "length_combos_3": 64, "refusal_checked": 5000}}
 DRAWS = {"quick": 12, "thorough": 160}
 SHARD_TIMEOUT = {"quick": 600, "thorough": 3000}
 
@@ -192,6 +192,10 @@ def check_refusals(rec):
     x = sympy.Symbol("x")
     systems = {"cartA": CoordinateSystem(S.CARTESIAN), "cartB": CoordinateSystem(S.CARTESIAN), "cyl": CoordinateSystem(S.CYLINDRICAL),
                "cylB": CoordinateSystem(S.CYLINDRICAL), "sph": CoordinateSystem(S.SPHERICAL), "sphB": CoordinateSystem(S.SPHERICAL)}
+    # systems of another kind declared over the *same* inner SymPy system as cartA (what a hand-made conversion produces):
+    # still different coordinate systems
+    systems["cylOverA"] = CoordinateSystem(S.CYLINDRICAL, systems["cartA"].coord_system)
+    systems["sphOverA"] = CoordinateSystem(S.SPHERICAL, systems["cartA"].coord_system)
     binary = {"add": add, "subtract": sub, "dot": dot, "cross": cross, "project": proj, "reject": rej, "equal": equal_vectors}
 
     def must_refuse(name, fn, case):
